@@ -24,7 +24,9 @@ def _ensure_z3():
         return False
 
 
-BUILD = "/verif/.build"
+import paths  # noqa: E402
+
+BUILD = paths.BUILD
 _DUMPS = {}
 _KERNELS = None
 
@@ -42,7 +44,7 @@ class Ctx:
     def program(self, crate):
         from mirsmt import mir
         if crate not in _DUMPS:
-            cdir = {"nomt": "/repo/nomt", "core": "/repo/core"}[crate]
+            cdir = {"nomt": os.path.join(paths.REPO, "nomt"), "core": os.path.join(paths.REPO, "core")}[crate]
             out = os.path.join(BUILD, "mir", crate + ".mir")
             secs = mir.dump(cdir, out, os.path.join(BUILD, "mir", "target-" + crate))
             self.log("[M] dumped MIR of %s from /repo working tree in %.1fs (%d bytes)" % (crate, secs, os.path.getsize(out)))
@@ -55,8 +57,8 @@ def kernels_bin(log):
     global _KERNELS
     if _KERNELS is None:
         import shutil
-        cdir = os.path.join(HERE, "replay", "kernels")
-        shutil.copy("/repo/Cargo.lock", os.path.join(cdir, "Cargo.lock"))
+        cdir = paths.crate_copy(os.path.join(HERE, "replay", "kernels"), "kernels")
+        shutil.copy(os.path.join(paths.REPO, "Cargo.lock"), os.path.join(cdir, "Cargo.lock"))
         env = dict(os.environ)
         env["CARGO_NET_OFFLINE"] = "true"
         p = subprocess.run(["cargo", "build", "--offline", "--target-dir", os.path.join(BUILD, "kernels")], cwd=cdir,
@@ -192,8 +194,8 @@ def scenarios_bin(log):
     global _SCEN
     if _SCEN is None:
         import shutil
-        cdir = os.path.join(HERE, "replay", "scenarios")
-        shutil.copy("/repo/Cargo.lock", os.path.join(cdir, "Cargo.lock"))
+        cdir = paths.crate_copy(os.path.join(HERE, "replay", "scenarios"), "scenarios")
+        shutil.copy(os.path.join(paths.REPO, "Cargo.lock"), os.path.join(cdir, "Cargo.lock"))
         env = dict(os.environ)
         env["CARGO_NET_OFFLINE"] = "true"
         p = subprocess.run(["cargo", "build", "--offline", "--target-dir", os.path.join(BUILD, "scenarios")], cwd=cdir,
